@@ -25,6 +25,21 @@ CHECKS = {
          "Scoped-variable scenarios and scoped-heavy generated programs are executed (strict, and lazy inside the order-insensitive fragment) on trees with deep nesting, same-range parent/child chains and many nodes of one kind, and compared with the reference interpreter keyed by pre-order node identity: same Ok/Err, same attribute values copied out of the variables, nearest-ancestor inheritance only for declared names, duplicate definitions rejected.",
          "Trusted: the reference interpreter and the tree index (one TreeCursor walk). 32-bit id collisions of tree-sitter nodes are out of reach (DESIGN §10).",
          "DESIGN.md §5 C04"),
+ "C05": ("exploration",
+         "total-function fuzzing with proptest-driven structured generation: mutated texts, accepted but failing programs, hostile globals; panic / abort / poll-bound oracles; libFuzzer targets in the thorough tier",
+         "Token- and byte-level mutations of generated and example DSL files, accepted programs generated with a high rate of risky choices and injected run-time faults (globals supplied, missing or wrongly typed), and hand-written hazards are loaded and, when accepted, executed in both modes on error-free, ERROR-bearing, empty and non-ASCII trees; every error is rendered plain and pretty. A panic, a process abort (caught by a signal handler that dumps the candidate tapes) or a breach of the poll bound is a violation. Exploration is the only level a totality claim over all strings admits here.",
+         "Trusted: the panic hook / catch_unwind boundary, the signal handler, the poll bound of 200000 as a proxy for non-termination. Inputs nested deeper than 64 brackets are discarded (the property's bound).",
+         "DESIGN.md §5 C05"),
+ "C06": ("exploration",
+         "reference-checker differential with single-fault injection over generated valid programs",
+         "Generated valid programs must load (a rejection is reported with its diagnostic); the same programs with exactly one rule violation injected from the catalogue at a random stanza, block depth and position, the offending value routed through 0-3 bindings / calls / list literals, must be rejected with the check-error variant of that rule, naming the variable or capture, at the offending token or its enclosing condition, comprehension, statement or stanza. The reference checker (harness/src/refcheck.rs) decides validity and discards candidates that do not carry exactly one violation.",
+         "Trusted: the reference checker written from the reference's rules; CheckError is private to the library, so its variant and location are read from its Debug rendering. Known finding D16 (shorthand bodies unchecked) pinned.",
+         "DESIGN.md §5 C06"),
+ "C07": ("exploration",
+         "round-trip property testing: print generated programs with a random layout, parse, compare with the AST and locations the printer recorded",
+         "Free-form programs over every statement and expression form (and checker-valid generated programs) are printed with random whitespace, comments, line breaks, string escapes and trailing commas, then parsed (parse-only entry, or File::from_str); globals, inherit names, shorthands, statements and every recorded Location must equal the AST built from the printer's own record, by the AST's PartialEq.",
+         "Trusted: the harness printer (harness/src/dsl.rs) as the definition of 'as written'. A bare `global name` is followed by plain whitespace; scoped-variable locations are those of the name token.",
+         "DESIGN.md §5 C07"),
  "C08": ("exploration",
          "metamorphic testing: every permutation of a file's stanzas (all n! for small n, sampled beyond) executed lazily and compared with the file order",
          "Accepted files with cross-stanza dependencies (scoped-variable scenarios, generated programs) are executed lazily in file order and under all stanza permutations (n <= 4 quick, n <= 5 thorough; reversal + samples beyond); Ok/Err must be the same and graphs isomorphic. A permutation is a different processing schedule of the same matches, so exhaustive permutation of small files is the natural exploration.",
@@ -45,6 +60,11 @@ CHECKS = {
          "For each generated program/tree/mode the uncancelled run is counted (N polls, equal to the NoCancellation result, at least the reference interpreter's statement + attribute + scan-iteration (+ match) count), then EVERY k in 1..N is run with a flag failing from poll k: the result must be the Cancelled error itself, exactly k polls, no later evaluation (a registered tick function observes that). The k dimension is enumerated completely per pair, so fault_enumeration is the right level; the set of pairs is sampled.",
          "Trusted: harness CancellationFlag / Function implementations, the reference interpreter's trace for the lower bound. Pairs above 400 (quick) / 2000 (thorough) polls are skipped and counted.",
          "DESIGN.md §5 C11"),
+ "C12": ("exploration",
+         "metamorphic testing over repetitions, execution histories, threads and processes: every result must equal the isolated result of a freshly loaded file on a fresh thread",
+         "Per case 1-3 generated files x 1-3 trees: double loads, isolated results computed twice on fresh threads, a history of mixed / failing / cancelled executions on a long-lived thread with the files loaded once, 8 concurrent threads sharing one &File, caller's Variables compared before and after every run, and 3-8 child processes given the same seed that must print identical transcripts. All observable forms are compared (pretty text, JSON value, observed graph with numbering, error text).",
+         "Trusted: thread schedules are whatever the OS produces (smoke level for real races); hash-order effects are reached because every HashMap instance has its own RandomState. Known finding: printed order of sets of syntax nodes is address-dependent.",
+         "DESIGN.md §5 C12"),
  "C13": ("exploration",
          "reference-model property testing of the stdlib (generated argument tuples vs an independent model of the documented contracts)",
          "Every call Functions::stdlib().call(name, args) over generated argument tuples (every Value variant, boundary integers, brace / regex / non-ASCII strings, every kind of syntax node incl. root, anonymous and ERROR nodes) is compared with a model written from src/reference/functions.rs: same value, or an error exactly where the contract is broken, never a panic. Exploration is the right level: contracts are stated per function over all values, the functions are small and pure, and a model differential at ~600k calls per quick run reaches the boundary classes.",
@@ -60,6 +80,11 @@ CHECKS = {
          "Sources with 0-6 injected syntax faults are parsed; first/all/into_first/into_all must report exactly the outermost ERROR and MISSING nodes in document order (the owning variants after being moved to another thread) and both Display forms must return and cite line and column. Exploration is the right level: trees are an unbounded input space and the oracle is a ten-line recursive walk.",
          "Trusted: tree-sitter's Node API (is_error, is_missing, child). Thread moves exercise Send only in the schedules the OS produces.",
          "DESIGN.md §5 C18"),
+ "C19": ("exploration",
+         "black-box differential: the CLI binary (built from /repo with --features cli) as a child process vs the in-process library result, over generated inputs and option sets",
+         "Generated (DSL, source) pairs incl. rejected files, failing executions and sources with syntax errors are run through the CLI under combinations of --lazy, --json, --output, --quiet, --allow-parse-errors and --global; exit status, stdout, stderr and the output file must match what the library computes in-process (pretty text exactly, JSON as parsed values with syntax-node ids normalised).",
+         "Trusted: tree-sitter-loader finding the Python grammar prepared under /verif/.work; --output only together with --json (the argument parser requires it). Text comparison skipped for graphs with address-ordered sets.",
+         "DESIGN.md §5 C19"),
  "C20": ("exploration",
          "reference-model fault injection: one run-time fault at a generated statement position and depth, error context compared with the reference interpreter's failure site",
          "Valid generated programs with exactly one injected run-time fault are executed in both modes on trees with many matches; the returned error must be a statement context that names the stanza, the matched node and the failing statement (strict: exactly the reference interpreter's first failure site; lazy: consistent with the cited stanza, and for two-statement conflicts exactly the two conflicting statements), and display_pretty must show the cited DSL and source lines.",
@@ -89,7 +114,7 @@ def main():
     checks, na = [], []
     for p in props:
         pid = p["id"]
-        if pid in CHECKS:
+        if CHECKS.get(pid):
             cat, tech, text, note, ref = CHECKS[pid]
             checks.append({
                 "property_id": pid,
@@ -115,7 +140,7 @@ def main():
             "add_only": True,
         },
         "engines": [
-            {"name": "tsgv", "path": "/verif/harness", "serves_properties": sorted(CHECKS),
+            {"name": "tsgv", "path": "/verif/harness", "serves_properties": sorted(k for k in CHECKS if CHECKS[k]),
              "kind_free_text": "Rust harness: proptest-driven choice tapes, reference models, shrinking, replay"},
         ],
         "checks": checks,
